@@ -1443,22 +1443,70 @@ def _run_stack(case, ctx):
             header["h1"] = np.arange(ntr, dtype=np.float64)
     labels = sorted(set(word.tolist()))
     folds = [int(np.sum(word == lab)) for lab in labels]
+    layout, wkind, hkind = case.get("layout", "C"), case.get("word_kind", "array"), case.get("hdr_kind", "array")
+    form, plan = case.get("form", "kw"), _plan(case)
+    # the label vector as callers hold it: ndarray, list, read-only, a strided column, a narrow or unsigned integer type
+    # (only where every label fits: the labels stay the same numbers)
+    if wkind == "small_int" and word.dtype.kind == "i" and np.all(np.abs(word) < 2 ** 15):
+        word_in = word.astype(np.int16)
+    elif wkind == "unsigned" and word.dtype.kind == "i" and np.all(word >= 0):
+        word_in = word.astype(np.uint64)
+    elif wkind == "list":
+        word_in = word.tolist()
+    elif wkind in ("ro", "strided"):
+        word_in = _lay(word, wkind)
+    else:
+        wkind, word_in = "array", word.copy()
     ctx.label("stack", "stack_" + oracle_agg, "stack_" + case["dtype"], "stack_labels_" + case["labels"],
-              "stack_header" if header else "stack_noheader", "stack_1label" if len(labels) == 1 else "stack_multi")
+              "stack_header" if header else "stack_noheader", "stack_1label" if len(labels) == 1 else "stack_multi",
+              "stack_lay_" + layout, "stack_word_" + wkind, "stack_call_" + form, f"stack_rep{len(plan) - 1}")
     if len(labels) >= 2 and len(set(folds)) >= 2:
         ctx.nontrivial = True
-    kw = {}
-    if fcn is not None:
-        kw["fcn_agg"] = fcn
+    hdr_in = None
     if header is not None:
-        kw["header"] = {k: v.copy() for k, v in header.items()}
-    res = ctx.call("C20.stack", vol.stack, data.copy(), word.copy(), **kw)
-    if res is ctx.CRASH:
-        return
-    ok = isinstance(res, tuple) and len(res) == 2 and _is_array(res[0], (len(labels), ns))
-    if not ctx.check(ok, "C20.stack_shape",
+        ctx.label("stack_hdr_" + hkind)
+        if hkind == "int":                  # integer header columns (trace numbers): the mean is taken in floating point
+            header = {k: np.round(v).astype(np.int64) for k, v in header.items()}
+        hdr_in = {k: (v.tolist() if hkind == "list" else _lay(v, "ro") if hkind == "ro" else v.copy())
+                  for k, v in header.items()}
+    din = _lay(data, layout)
+    snap = (_snap(din), _snap(word_in), None if hdr_in is None else {k: _snap(v) for k, v in hdr_in.items()})
+
+    def call(d):
+        if form == "pos":
+            a = [d, word_in, fcn if fcn is not None else np.nanmean] + ([hdr_in] if hdr_in is not None else [])
+            return ctx.call("C20.stack", vol.stack, *a)
+        kw = {}
+        if fcn is not None:
+            kw["fcn_agg"] = fcn
+        if hdr_in is not None:
+            kw["header"] = hdr_in       # the same dictionary for every call of the case (it gains a key, by design)
+        return ctx.call("C20.stack", vol.stack, d, word_in, **kw)
+
+    for tag in plan:
+        if tag == "other":
+            other = rng.integers(-1000, 1000, (ntr, ns)).astype(np.int32) if dt is np.int32 else (rng.standard_normal((ntr, ns)) * 10).astype(dt)
+            if call(_lay(other, layout)) is ctx.CRASH:
+                return
+            continue
+        res = call(din)
+        if res is ctx.CRASH:
+            return
+        if not _verify_stack(case, ctx, res, tag, data, word, labels, folds, oracle_agg, dt, header):
+            return
+    _untouched(ctx, "C20.stack_args_modified", data=(din, snap[0]), word=(word_in, snap[1]))
+    if hdr_in is not None:
+        for k, v in snap[2].items():
+            ctx.check(k in hdr_in and _same(hdr_in[k], v), "C20.stack_args_modified",
+                      lambda: f"header column `{k}` of the caller's dictionary was modified or removed")
+
+
+def _verify_stack(case, ctx, res, tag, data, word, labels, folds, oracle_agg, dt, header):
+    ntr, ns = data.shape
+    ok = isinstance(res, tuple) and len(res) == 2 and _is_array(res[0], (len(labels), ns)) and res[0].dtype.kind in "fiu"
+    if not ctx.check(ok, _k("C20.stack_shape", tag),
                      lambda: f"stack returned {type(res).__name__}; expected (array {(len(labels), ns)}, header/fold)"):
-        return
+        return False
     stk, hst = res
     exp = np.stack([_col_agg(data[word == lab].astype(np.float64), oracle_agg) for lab in labels])
     if dt is np.int32:
@@ -1475,27 +1523,37 @@ def _run_stack(case, ctx):
         err = (_maxabs(stk[fin].astype(np.float64) - exp[fin]) / den) if (same_nan and fin.any()) else (0.0 if same_nan else np.inf)
         ctx.stat("stack_relerr_" + case["dtype"], err if np.isfinite(err) else 1.0)
         good = same_nan and err <= tol
-    ctx.check(good, "C20.stack_aggregate",
-              lambda: f"{oracle_agg} per label over {len(labels)} labels (folds {folds}): rows differ from the loop "
-                      f"aggregate (relative deviation {err:.3g})")
+    ctx.check(good, _k("C20.stack_aggregate", tag),
+              lambda: f"{oracle_agg} per label over {len(labels)} labels (folds {folds}), data {case['dtype']} "
+                      f"({case.get('layout', 'C')}), call '{tag}': rows differ from the loop aggregate (relative "
+                      f"deviation {err:.3g})")
     if header is None:
         fold = hst
     else:
-        if not ctx.check(isinstance(hst, dict) and "fold" in hst, "C20.stack_header_keys",
+        if not ctx.check(isinstance(hst, dict) and "fold" in hst, _k("C20.stack_header_keys", tag),
                          "aggregated header is not a dict with a 'fold' entry"):
-            return
+            return False
         fold = hst["fold"]
         for k, v in header.items():
-            if not ctx.check(k in hst and np.shape(hst[k]) == (len(labels),), "C20.stack_header_keys",
+            if not ctx.check(k in hst and np.shape(hst[k]) == (len(labels),), _k("C20.stack_header_keys", tag),
                              lambda: f"header key {k} missing or of wrong length in the aggregated header"):
                 continue
             hexp = np.array([sum(float(a) for a in v[word == lab]) / f for lab, f in zip(labels, folds)])
-            herr = _maxabs(np.asarray(hst[k], dtype=np.float64) - hexp) / max(_maxabs(hexp), 1.0)
+            try:
+                hgot = np.asarray(hst[k], dtype=np.float64)
+            except Exception:  # noqa
+                ctx.fail(_k("C20.stack_header_keys", tag), f"header key {k} is not numeric in the aggregated header")
+                continue
+            herr = _maxabs(hgot - hexp) / max(_maxabs(hexp), 1.0)
             ctx.stat("stack_header_relerr", herr)
-            ctx.check(herr <= 1e-12, "C20.stack_header_mean",
-                      lambda: f"header {k}: per-label mean differs from the loop mean by {herr:.3g}")
-    ctx.check(np.shape(fold) == (len(labels),) and [int(f) for f in np.asarray(fold)] == folds, "C20.stack_fold",
-              lambda: f"fold {np.asarray(fold).tolist()} != label counts {folds}")
+            ctx.check(herr <= 1e-12, _k("C20.stack_header_mean", tag),
+                      lambda: f"header {k}: per-label mean differs from the loop mean by {herr:.3g} (call '{tag}')")
+    try:
+        fold_ok = np.shape(fold) == (len(labels),) and [int(f) for f in np.asarray(fold)] == folds
+    except Exception:  # noqa
+        fold_ok = False
+    ctx.check(fold_ok, _k("C20.stack_fold", tag), lambda: f"fold {np.asarray(fold).tolist()} != label counts {folds}")
+    return True
 
 
 # ------------------------------------------------------------------------------------------------
